@@ -992,6 +992,12 @@ fn merge_tie(cx: &mut Ctx, label: &str, src: &str, pair: &str, before: &Bytecode
         } else {
             cx.ev.hit("merge:memo-keys-rebound");
         }
+        // hypothesis SrcWf of C10.merge_isRenaming_partial
+        if a.contains("src-wf=true") {
+            cx.ev.hit("merge:source-well-formed");
+        } else {
+            cx.ev.hit("merge:source-not-well-formed");
+        }
     } else {
         cx.ev.hit("merge:model-differs");
         cx.ev.violation(
